@@ -16,6 +16,7 @@ RULE = ('Hypothesis draws histories of 2-8 operations over 3 reusable PGPMessage
         'encryption to RSA / ECDH (Curve25519, P-256, P-384, P-521, secp256k1) subkeys, multi-recipient encryption with a gen_key() session key, protect and re-protect '
         '(same or other passphrase/cipher/hash, also after export/import); includes encrypting the identical message object to the identical recipient repeatedly. '
         'Non-trivial: a history with >= 2 operations on identical inputs; distinct by (operation kinds, ciphers, recipient kinds).')
+RULE += ' One operation encrypts a message for 2-3 passphrases (optionally plus a key recipient) sharing a session key: every SKESK must carry its own fresh salt.'
 ASSUMPTIONS = ['unpredictability of the OS random source is out of scope; provenance (drawn from os.urandom during the operation), size, distinctness and non-appearance are checked',
                'ECDH ephemeral keys come from the cryptography library\'s generator and are only checked for distinctness', 'refpgp.enc/keys recover the values from the output']
 
